@@ -6,6 +6,7 @@ CONSTANTS
   FIXWRAP = TRUE
   FIXHOPS = TRUE
   FIXOHEXP = TRUE
+  FIXOHSEC = TRUE
   XorAcc <- SymXor
   MAXLEN = 2
   ALLCH = FALSE
